@@ -17,8 +17,65 @@
    never-written (zero) slots up to the capacity.  Definitions only. *)
 From Coq Require Import Strings.String Strings.Byte.
 From Coq Require Import List Arith NArith ZArith Bool Lia.
-From Verif Require Import Base.Bytes Base.Val Base.Outcome Model.Quote.
+From Verif Require Import Base.Bytes Base.Val.
 Import ListNotations.
+
+(* Three-valued outcome of a modelled Go call: a value, a returned error, or a panic. *)
+Inductive res (A : Type) := Ok (a : A) | Err | Panic.
+Arguments Ok {A} a.
+Arguments Err {A}.
+Arguments Panic {A}.
+Definition rbind {A B} (r : res A) (f : A -> res B) : res B :=
+  match r with Ok a => f a | Err => Err | Panic => Panic end.
+Definition rmap {A B} (f : A -> B) (r : res A) : res B :=
+  match r with Ok a => Ok (f a) | Err => Err | Panic => Panic end.
+Notation "x <- r ;; k" := (rbind r (fun x => k)) (at level 61, r at next level, right associativity).
+
+(* utils/bytesconv.go AppendQuotedArg: unreserved bytes verbatim, the rest as %XX (upper case) *)
+Definition unreserved (c : byte) : bool :=
+  let n := b2n c in
+  (((97 <=? n) && (n <=? 122)) || ((65 <=? n) && (n <=? 90)) || ((48 <=? n) && (n <=? 57))
+  || (n =? 42) || (n =? 45) || (n =? 46) || (n =? 95))%N.
+Definition hex_upper (n : N) : byte := n2b (if (n <? 10)%N then 48 + n else 55 + n)%N.
+Fixpoint quote (s : bytes) : bytes :=
+  match s with
+  | [] => []
+  | c :: r =>
+      if unreserved c then c :: quote r
+      else "%"%byte :: hex_upper (b2n c / 16) :: hex_upper (b2n c mod 16) :: quote r
+  end.
+
+(* utils/bytesconv.go hexbyte2int: hex2intTable has 255 entries, so byte 0xFF indexes out of
+   range (a Go panic); non-hex bytes give -1 *)
+Inductive hexv := HexPanic | HexNone | HexVal (n : N).
+Definition hex2int (c : byte) : hexv :=
+  let n := b2n c in
+  (if n =? 255 then HexPanic
+   else if (48 <=? n) && (n <=? 57) then HexVal (n - 48)
+   else if (97 <=? n) && (n <=? 102) then HexVal (n - 87)
+   else if (65 <=? n) && (n <=? 70) then HexVal (n - 55)
+   else HexNone)%N.
+
+(* utils/args.go decodeArgAppend(dst[:0], src, true): the decoded bytes. Both table lookups
+   are evaluated before either result is tested. *)
+Fixpoint unquote (src : bytes) : res bytes :=
+  match src with
+  | [] => Ok []
+  | c :: r =>
+      if beqb c "%"%byte then
+        match r with
+        | x1 :: x2 :: r' =>
+            match hex2int x1, hex2int x2 with
+            | HexPanic, _ => Panic
+            | _, HexPanic => Panic
+            | HexVal a, HexVal b => rmap (cons (n2b (a * 16 + b))) (unquote r')
+            | _, _ => rmap (cons c) (unquote r)
+            end
+        | _ => Ok src            (* i+2 >= n: the rest is appended verbatim *)
+        end
+      else if beqb c "+"%byte then rmap (cons " "%byte) (unquote r)
+      else rmap (cons c) (unquote r)
+  end.
 
 Record gs (A : Type) := mkGs { vis : list A; hid : list A; zc : nat }.
 Arguments mkGs {A} _ _ _.
